@@ -34,6 +34,7 @@ func init() {
 				}
 			}},
 			{ID: "C04.R7", Text: "what is exposed is the live position: no reader (API, metrics, checkpoint) retains a reference to the position map in a field of its own", Run: noRetainedPositionMap},
+			{ID: "C04.R8", Text: "written by the next save: a position that moved with dirty=true is marked (whatever the mark's previous value) and raises the save flag (same rules as C05.R1, C05.R2)", Run: func(c *Ctx, id string) { c05r1(c, id); c05r2(c, id) }},
 			{ID: "C04.R4", Text: "the position map has no other writer (same rule as C01.R1)", Run: c01r1},
 		},
 	})
